@@ -49,6 +49,12 @@ class _CacheBase(Contract):
         "callee contract: mimic_function returns `within` (C18-P4)",
     )
 
+    def attr(self, it, obj, name, node):
+        # cache entries are `_CacheEntry(value, expire)` named tuples: field access by name is item access by position
+        if name in ("value", "expire") and it.kind(obj) == "tuple":
+            return lib.getitem(it, obj, V.VInt(z3.IntVal(0 if name == "value" else 1)), node)
+        return None
+
     # ---------------------------------------------------------------------------------- scenario
     def callee(self, it, fv):
         if fv.qualname == "mimic_function":
@@ -583,3 +589,11 @@ CONTRACTS = CONTRACTS + [CacheFactory(), CacheGet(), AsyncCacheGet()]
 
 def extra_contracts():
     return mimic_variants("C12")
+
+
+class CacheShape(DecoratorShape):
+    file, func, name = FILE, "cache", "C12/caching:cache(decorator-shape)"
+    props = ("C12", "C13")
+
+
+CONTRACTS = CONTRACTS + [CacheShape()]
